@@ -218,10 +218,11 @@ func findBit(bytes []byte, startIndex, endIndex, width int, searchBit, noEnd boo
 	} else {
 		startBit = startIndex * width
 	}
+	// the end index names a whole unit: the range ends at that unit's last bit
 	if endIndex < 0 {
-		endBit = bits + (endIndex * width)
+		endBit = bits + (endIndex * width) + (width - 1)
 	} else {
-		endBit = endIndex * width
+		endBit = endIndex*width + (width - 1)
 	}
 
 	// enforce boundaries
@@ -296,6 +297,12 @@ func findBit(bytes []byte, startIndex, endIndex, width int, searchBit, noEnd boo
 	// search the last partial byte
 	if index == endByte {
 		b = bytes[index]
+		// bits after the end of the range do not count
+		mask := lastBit - 1
+		b &= ^mask
+		if !searchBit {
+			b |= mask
+		}
 		subOffset := findBitInByte(b, searchBit, 0x80, lastBit)
 		if subOffset >= 0 {
 			return startBit + subOffset + ((index - startByte) * 8)
